@@ -35,6 +35,37 @@ func runC12(p *core.Prog, r *core.Report) {
 	c12R5(p, r)
 	c12R6(p, r, "C12.R6")
 	c12R7(p, r)
+	c12R8(p, r)
+}
+
+// c12R8: a body that ends early is recognised, and resumed with a Range request, only when the
+// request said how long the body should be. The blob download passes the descriptor's size.
+func c12R8(p *core.Prog, r *core.Report) {
+	const rule = "C12.R8"
+	r.Rule(rule, "downloads can be resumed: every GET request the registry scheme's BlobGet builds sets ExpectLen from a non-constant value (the descriptor size); without it a truncated chunked body is taken for the whole blob and the single transient fault is not absorbed", 1)
+	fn := p.Method("scheme/reg", "Reg", "BlobGet")
+	if fn == nil {
+		r.MissingAnchor(rule, "scheme/reg.(*Reg).BlobGet")
+		return
+	}
+	unit := core.Helpers(fn, 2)
+	n := 0
+	lab := map[*ssa.Function]labeler{}
+	for _, lit := range reqLiterals(p) {
+		if !unit[lit.Fn] || !lit.MethodOK || !strings.Contains(lit.Method, "GET") {
+			continue
+		}
+		n++
+		if lab[lit.Fn] == nil {
+			lab[lit.Fn] = labeler{}
+		}
+		v := lit.Fields["ExpectLen"]
+		_, isConst := v.(*ssa.Const)
+		r.Check(v != nil && !isConst, rule, p.FuncName(lit.Fn), lab[lit.Fn].next("blob GET declares its length"), p.Pos(lit.Alloc.Pos()), "the request does not set ExpectLen: the response reader cannot tell a body that was cut off from a complete one, so a dropped connection ends the download with an error (or a short blob) instead of a Range request for the rest")
+	}
+	if n == 0 {
+		r.MissingAnchor(rule, "GET request literals of scheme/reg BlobGet")
+	}
 }
 
 // reqLiteral is a reghttp.Req allocation with the constant fields the literal (and later direct
